@@ -114,6 +114,12 @@ def expr(e):
         # a str): the call of the builtin "%getitem" (not a Python name) with the index as a number; its meaning is
         # whatever [ocall] answers: the theorems state it (element of a list, one-character str of a str)
         return '(ECall "%%getitem" [%s; (EConst %s)])' % (expr(e.value), num(e.slice.value))
+    if STR_INDEX[0] and isinstance(e, ast.Subscript) and isinstance(e.ctx, ast.Load) \
+            and not isinstance(e.slice, (ast.Slice, ast.Tuple, ast.Constant, ast.Starred)):
+        # option 'str_index', `x[k]` with k any expression (PIndex is an error unless x is a list and k a number: here
+        # x may be a mapping read with a computed str key): the same builtin "%getitem" with x, then k, evaluated in
+        # this order as in Python; the theorems state its meaning (the entry of an object for a str key)
+        return '(ECall "%%getitem" [%s; %s])' % (expr(e.value), expr(e.slice))
     if isinstance(e, ast.Subscript) and isinstance(e.slice, ast.Constant) and isinstance(e.slice.value, int) \
             and e.slice.value >= 0:
         return '(EIndex %s %d)' % (expr(e.value), e.slice.value)
@@ -316,6 +322,25 @@ def expr(e):
         # `getattr` may be rebound in the function or in the module.
         builtin_not_rebound('getattr')
         return '(ECall "%%getattr" [%s; %s; %s])' % (expr(e.args[0]), expr(e.args[1]), expr(e.args[2]))
+    if ISINSTANCE[0] and isinstance(e, ast.Call) and isinstance(e.func, ast.Name) and e.func.id == 'isinstance' \
+            and len(e.args) == 2 and not e.keywords and isinstance(e.args[1], ast.Name) and e.args[1].id == 'int' \
+            and not isinstance(e.args[0], ast.Starred):
+        # option 'isinstance', the class being the builtin `int` (refused when `int` or `isinstance` may be rebound in
+        # the function or the module): the class is handed to the builtin "%isinstance" as the marker string "%int"
+        # (not a Python name; reading the name `int` has no effect and cannot fail).  Its meaning is whatever [ocall]
+        # answers: the theorems state it.
+        builtin_not_rebound('isinstance')
+        builtin_not_rebound('int')
+        return '(ECall "%%isinstance" [%s; (EConst (VStr "%%int"))])' % expr(e.args[0])
+    if isinstance(e, ast.Call) and isinstance(e.func, ast.Attribute) and e.func.attr == 'replace' \
+            and len(e.args) == 2 and not e.keywords and all(
+                isinstance(a, ast.Constant) and isinstance(a.value, str) for a in e.args) \
+            and '.replace' not in CALLABLE and '.replace' not in EXTERNAL:
+        # `x.replace('old', 'new')`: the call of the builtin method "%replace" (not a Python name) with the receiver
+        # first (evaluated first, as in Python; the two literals have no effect).  Its meaning is whatever [ocall]
+        # answers: the theorems state it (receiver a str: every occurrence of 'old' from the left replaced).  Like
+        # every method the callee is resolved by name only: the theorems speak about str receivers.
+        return '(ECall "%%replace" [%s; %s; %s])' % (expr(e.func.value), expr(e.args[0]), expr(e.args[1]))
     if ISINSTANCE[0] and isinstance(e, ast.Call) and isinstance(e.func, ast.Name) and e.func.id == 'isinstance' \
             and len(e.args) == 2 and not e.keywords and not any(isinstance(a, ast.Starred) for a in e.args):
         # option 'isinstance' of the target: the class of an object is outside the value domain of Py.v, so
@@ -830,6 +855,9 @@ EXTERNAL = {
     'character_ratio': (['style', 'character'], {}),
     # Stream.get_marked_content_tag(element_tag) of pdf/stream.py: the structure tag (a str) of an HTML element name
     '.get_marked_content_tag': (['self', 'element_tag'], {}),
+    # layout/float.py avoid_collisions(context, box, containing_block, outer=True): (position_x, position_y,
+    # available_width); an oracle in find_float_position (its loop is regenerated separately: target avoid_loop)
+    'avoid_collisions': (['context', 'box', 'containing_block', 'outer'], {'outer': '(EConst (VBool true))'}),
 }
 # oracles declared by ONE target (option 'oracle_stmts': name -> (parameters, mutated parameters)), in force while that
 # target is printed (set by generate()): the statement `f(a, b)` is printed like the statements of EXTERNAL_STMT, as
@@ -931,8 +959,12 @@ def oracle_stmt(e, result=None):
     bound to it instead of "%call".  A declared parameter '*name' stands for the argument `*name` where name is the
     vararg of the function being printed (option 'inner': never rebound there): the oracle receives the tuple of the
     extra positional arguments as ONE value (it determines them), and answers its state after the call when the
-    parameter is declared mutated (the objects in the tuple may be mutated by the callee)."""
-    name = e.func.id
+    parameter is declared mutated (the objects in the tuple may be mutated by the callee).
+    The callee may also be written `f.without_min_max` (f a plain name): the attribute that the decorators
+    handle_min_max_width / _height of layout/min_max.py put on the wrapper they return (the undecorated function); the
+    oracle is then declared, printed and recorded under the dotted name "f.without_min_max", a different oracle from
+    "f" (check_binding checks that f is a module-level function under one of these decorators)."""
+    name = e.func.id if isinstance(e.func, ast.Name) else '%s.%s' % (e.func.value.id, e.func.attr)
     params, mutated = TARGET_ORACLE[name]
     if any(p_.startswith('*') for p_ in params):
         import copy
@@ -1116,6 +1148,34 @@ def property_assignment(s):
 #    never rebound, constant distinct string keys: the call of the oracle "module.Class" with the list of the pairs
 #    [key; value] in display order (the values evaluated from left to right, as in Python).
 OBJ_METHODS = {}
+# Target option 'vararg_last' (a method `def m(self, a, b=.., *v)`): the name of the vararg while its body is printed
+VARARG_LAST = [None]
+
+
+def vararg_as_last(fn):
+    """option 'vararg_last': a copy of fn whose vararg `*v` is an ordinary LAST parameter v, whose value is the tuple
+    of the extra positional arguments of the call (what Python binds v to; () when there is none: its default).
+    Meaning-preserving because v is only read: refused when v is rebound / deleted, when a nested function, lambda,
+    global or nonlocal occurs, or when fn has keyword-only / positional-only / ** parameters."""
+    import copy
+    fn = copy.deepcopy(fn)
+    a = fn.args
+    if not a.vararg or a.kwarg or a.kwonlyargs or a.posonlyargs:
+        raise Unsupported('signature of %s (vararg_last)' % fn.name)
+    v = a.vararg.arg
+    if v in [x.arg for x in a.args]:
+        raise Unsupported('the vararg %s of %s is also a parameter' % (v, fn.name))
+    for n in ast.walk(fn):
+        if isinstance(n, (ast.FunctionDef, ast.AsyncFunctionDef, ast.Lambda, ast.Global, ast.Nonlocal, ast.Delete,
+                          ast.NamedExpr)) and n is not fn:
+            raise Unsupported('%s inside %s (vararg_last)' % (type(n).__name__, fn.name))
+        if isinstance(n, ast.Name) and n.id == v and not isinstance(n.ctx, ast.Load):
+            raise Unsupported('the vararg %s of %s is rebound' % (v, fn.name))
+    a.args = a.args + [ast.arg(arg=v)]
+    a.defaults = a.defaults + [ast.Constant(value=())]
+    a.vararg = None
+    VARARG_LAST[0] = v
+    return fn
 
 
 def obj_methods_bytes(v):
@@ -1221,7 +1281,16 @@ def obj_methods_stmt(s):
         if f.attr not in OBJ_METHODS.get('super', {}):
             raise Unsupported('super().%s is not a declared method of the base class' % f.attr)
         params = OBJ_METHODS['super'][f.attr]
-        if c.keywords or len(c.args) != len(params) or any(isinstance(a, ast.Starred) for a in c.args):
+        cargs = list(c.args)
+        if params and params[-1] == '*':
+            # declared [.., '*']: the call must end with `*v`, v the vararg of the method being printed (option
+            # 'vararg_last': v is a tuple that is never rebound, so unpacking it cannot fail and passes its items as
+            # the extra positional arguments); the oracle receives that tuple as ONE last argument
+            if not (cargs and isinstance(cargs[-1], ast.Starred) and isinstance(cargs[-1].value, ast.Name)
+                    and VARARG_LAST[0] is not None and cargs[-1].value.id == VARARG_LAST[0]):
+                raise Unsupported('super().%s must end with the star argument of the vararg of the method' % f.attr)
+            cargs[-1] = cargs[-1].value
+        if c.keywords or len(cargs) != len(params) or any(isinstance(a, ast.Starred) for a in cargs):
             raise Unsupported('arguments of super().%s' % f.attr)
         if fn is None or tree is None or not fn.args.args or fn.args.args[0].arg != 'self' or fn.decorator_list:
             raise Unsupported('super() outside a plain method whose first parameter is self')
@@ -1235,7 +1304,7 @@ def obj_methods_stmt(s):
                 raise Unsupported('%s inside %s, which calls super()' % (type(n).__name__, fn.name))
         check_named_builtin(tree, 'super')
         return '(SUnpack [(TVar "%%call"); (TVar "self")] (ECall %s [%s]))' % (
-            q('super.' + f.attr), '; '.join(['(EVar "self")'] + [expr(a) for a in c.args]))
+            q('super.' + f.attr), '; '.join(['(EVar "self")'] + [expr(a) for a in cargs]))
     if isinstance(f.value, ast.Attribute) and isinstance(f.value.value, ast.Name) and f.attr in ('append', 'pop') \
             and f.value.attr not in PROP_GET:
         x, a = f.value.value.id, f.value.attr
@@ -1279,6 +1348,10 @@ def stmt(s):
     if isinstance(s, ast.Expr) and isinstance(s.value, ast.Call) and isinstance(s.value.func, ast.Name) \
             and s.value.func.id in TARGET_ORACLE:
         return oracle_stmt(s.value)
+    if isinstance(s, ast.Expr) and isinstance(s.value, ast.Call) and isinstance(s.value.func, ast.Attribute) \
+            and s.value.func.attr == 'without_min_max' and isinstance(s.value.func.value, ast.Name) \
+            and '%s.without_min_max' % s.value.func.value.id in TARGET_ORACLE:
+        return oracle_stmt(s.value)  # f.without_min_max(a, b): the declared oracle "f.without_min_max"
     if isinstance(s, ast.Assign) and len(s.targets) == 1 and isinstance(s.targets[0], ast.Name) \
             and isinstance(s.value, ast.Call) and isinstance(s.value.func, ast.Name) \
             and s.value.func.id in TARGET_ORACLE:
@@ -1315,6 +1388,16 @@ def stmt(s):
         # in-place floor division of their own)
         return '(SAssign [(TVar %s)] (EPrim PFloorDiv [(EVar %s); %s]))' % (
             q(s.target.id), q(s.target.id), expr(s.value))
+    if isinstance(s, ast.If) and isinstance(s.test, ast.NamedExpr) and isinstance(s.test.target, ast.Name):
+        # if (x := e): A  else: B   ==   x = e  followed by  if x: A  else: B     when the assignment expression is the
+        # WHOLE test: Python evaluates e, binds the plain name x to the value (in the scope of the statement: the test of
+        # an `if` statement is not inside a comprehension) and branches on the truth of that same value; e is evaluated
+        # once in both forms and nothing is evaluated between the binding and the test.  Two statements are printed
+        # (every caller joins the printed statements of a block with "; ").  A walrus anywhere else stays refused.
+        x_ = s.test.target.id
+        return '%s; %s' % (
+            stmt(ast.Assign(targets=[ast.Name(id=x_, ctx=ast.Store())], value=s.test.value)),
+            stmt(ast.If(test=ast.Name(id=x_, ctx=ast.Load()), body=s.body, orelse=s.orelse)))
     if isinstance(s, ast.If):
         return '(SIf %s [%s] [%s])' % (expr(s.test), block(s.body), block(s.orelse))
     if isinstance(s, ast.Return):
@@ -2546,6 +2629,16 @@ def translate_function(fn, name, slice_from=None, params=None, after_unpack=None
         body = body[fors_[0] + 1:]
         if not body:
             raise Unsupported('nothing after the loop over %s in %s' % (slice_from[1], fn.name))
+    elif isinstance(slice_from, tuple) and slice_from[0] == '<last-else>':
+        # ('<last-else>', head): the `else` branch of the LAST top-level statement of the function, which must be the
+        # statement `if <head>:` (first line compared as text).  The branch is the tail of the function whenever the
+        # test is false: a `return` of the slice is the return of the function, and running off its end is running
+        # off the end of the function (None).  The test and everything before it are not translated; `params` are
+        # the free variables (the target states which values they stand for).
+        last_ = body[-1] if body else None
+        if not isinstance(last_, ast.If) or ast.unparse(last_).split('\n')[0] != slice_from[1] or not last_.orelse:
+            raise Unsupported('the last statement of %s is not `%s` with an else branch' % (fn.name, slice_from[1]))
+        body = list(last_.orelse)
     elif slice_from == '<last-if>':
         # the last `if` statement at the top level of the function (test included) and the statements after it, to the
         # end of the function; the statements before it are not translated
@@ -2975,7 +3068,8 @@ FLEX_WHILE_BLOCK = ['unfrozen_factor_sum = 0', 'remaining_free_space = available
 STREAM_METHODS = {
     'super': {'push_state': [], 'pop_state': [], 'begin_text': [], 'end_text': [], 'end_marked_content': [],
               'set_font_size': ['font', 'size'], 'begin_marked_content': ['tag', 'property_list'],
-              'set_matrix': ['a', 'b', 'c', 'd', 'e', 'f']},
+              'set_matrix': ['a', 'b', 'c', 'd', 'e', 'f'],
+              'set_color_special': ['name', 'stroke', '*']},
     'module_calls': {'pydyf.Dictionary': 'dict'},
 }
 
@@ -3093,6 +3187,18 @@ TARGETS = {
         ('fun', 'avoid_collisions', 'avoid_loop', {'slice_from': '<while>', 'params': [
             'excluded_shapes', 'position_y', 'box_width', 'box_height', 'box', 'containing_block', 'outer']}),
     ]),
+    'GenFloatPos': ('weasyprint/layout/float.py', [
+        # float_width without its handle_min_max_width decorator (like absolute_width); shrink_to_fit an oracle
+        ('fun', 'float_width', 'float_width', {'callable': False}),
+        # find_float_position, whole body (CSS 2.1 9.5.1 rules 4-6, 1-2, 9): avoid_collisions an oracle (EXTERNAL; its
+        # loop is the target avoid_loop), box.translate an external statement, box.margin_width() the Box method
+        ('fun', 'find_float_position', 'find_float_position', {'callable': False}),
+        # the head of float_layout, from `cb_width, cb_height = ..` up to (not including) `clearance = ..`: percentages
+        # resolved (external statements), then the auto margins set to 0 (CSS 2.1 10.3.5)
+        ('fun', 'float_layout', 'float_layout_margins', {
+            'callable': False, 'slice_from': ('<from-to>', 'cb_width', 'clearance'),
+            'params': ['box', 'containing_block']}),
+    ]),
     'GenAbsolute': ('weasyprint/layout/absolute.py', [
         ('fun', 'absolute_width', 'absolute_width', {'callable': False}),
         ('fun', 'absolute_height', 'absolute_height', {'callable': False}),
@@ -3127,6 +3233,18 @@ TARGETS = {
     ]),
     'GenInline': ('weasyprint/layout/inline.py', [
         ('fun', 'text_align', 'text_align', {}),
+        # the function under @handle_min_max_width (the wrapper is GenMinMax): shrink_to_fit is an oracle
+        ('fun', 'inline_block_width', 'inline_block_width', {}),
+        # `if (nb_spaces := count_expandable_spaces(line)):` is printed as the binding followed by `if nb_spaces:` (see
+        # stmt()); count_expandable_spaces (recursive, isinstance, str.count) and add_word_spacing (recursive, mutates
+        # the boxes of the line, Pango layouts) are declared oracles of this target
+        # the slice is the whole body (its only statement); as a slice the target is not a callee of other targets:
+        # in text_align the statement `justify_line(context, line, offset)` stays the external statement it was
+        ('fun', 'justify_line', 'justify_line', {
+            'slice_from': '<first-if>', 'params': ['context', 'line', 'extra_width'],
+            'oracle_stmts': {'count_expandable_spaces': (['box'], []),
+                             'add_word_spacing': (['context', 'box', 'justification_spacing', 'x_advance'],
+                                                  ['box'])}}),
     ]),
     'GenPageName': ('weasyprint/layout/block.py', [
         ('fun', 'block_level_page_name', 'block_level_page_name', {}),
@@ -3233,6 +3351,24 @@ TARGETS = {
         # widths) bind the free variables
         ('fun', 'fixed_table_layout', 'fixed_cells_finish', {'slice_from': '<binds:border_spacing_x>', 'params': [
             'table', 'first_row_cells', 'num_columns', 'column_widths']}),
+        # the two statements of the head of fixed_table_layout that size the list of column widths:
+        # num_columns = max(len(all_columns), sum(cell.colspan for cell in first_row_cells)) and the fresh list
+        # column_widths = [None] * num_columns (option 'seq_ops': `*` is repetition of a list here); all_columns and
+        # first_row_cells come from the statements listed in 'before', num_columns goes to the tied slice above
+        ('fun', 'fixed_table_layout', 'fixed_head_sizes', {
+            'slice_from': ('<span>', 'num_columns', 'column_widths', {
+                'keep': ['num_columns'],
+                'before': ['all_columns = [column for column_group in table.column_groups '
+                           'for column in column_group.children]',
+                           'if table.children and table.children[0].children:\n'
+                           '    first_rowgroup = table.children[0]\n'
+                           '    first_row_cells = first_rowgroup.children[0].children\n'
+                           'else:\n    first_row_cells = []'],
+                'then': ['for i, column in enumerate(all_columns):\n'
+                         '    resolve_one_percentage(column, "width", table.width)\n'
+                         '    if column.width != "auto":\n        column_widths[i] = column.width',
+                         'border_spacing_x * (num_columns + 1)']}),
+            'params': ['all_columns', 'first_row_cells'], 'seq_ops': True}),
     ]),
     'GenCssUtils': ('weasyprint/css/utils.py', [
         ('qtable', 'LENGTHS_TO_PIXELS', 'lengths_to_pixels', {}),
@@ -3269,6 +3405,25 @@ TARGETS = {
             'imports': {'FONT_SIZE_KEYWORDS': ('weasyprint/css/computed_values.py', 'qtable'),
                         'INITIAL_VALUES': ('weasyprint/css/properties.py', 'entries')}}),
     ]),
+    # C06, further computers of the same module that are `length()` behind a keyword or over a tuple (a file of their
+    # own: GenComputed and what is proved about it stay as they are): gap (column-gap, row-gap: 'normal' kept),
+    # word_spacing ('normal' -> 0, else pixels only), border_radius (the four corners: length() over the pair)
+    'GenComputedGap': ('weasyprint/css/computed_values.py', [
+        ('fun', 'gap', 'gap', {'computer': ['column-gap', 'row-gap']}),
+        ('fun', 'word_spacing', 'word_spacing', {'computer': ['word-spacing']}),
+        ('fun', 'border_radius', 'border_radius', {
+            'computer': ['border-top-left-radius', 'border-top-right-radius', 'border-bottom-left-radius',
+                         'border-bottom-right-radius']}),
+        # border_width (the four border widths, column-rule-width, outline-width), whole: the table
+        # BORDER_WIDTH_KEYWORDS of this module (imports), `name.replace('width', 'style')` the builtin "%replace",
+        # `isinstance(value, int)` the builtin "%isinstance" with the class int as the marker "%int", `style[<key>]`
+        # with the computed key the builtin "%getitem" (option 'str_index')
+        ('fun', 'border_width', 'border_width', {
+            'computer': ['border-top-width', 'border-right-width', 'border-left-width', 'border-bottom-width',
+                         'column-rule-width', 'outline-width'],
+            'isinstance': True, 'str_index': True,
+            'imports': {'BORDER_WIDTH_KEYWORDS': ('weasyprint/css/computed_values.py', 'qtable')}}),
+    ]),
     'GenBuild': ('weasyprint/formatting_structure/build.py', [
         # BOX_TYPE_FROM_DISPLAY: (outside, inside) / (table part,) -> the name of the class of boxes.py
         ('classtable', 'BOX_TYPE_FROM_DISPLAY', 'box_type_from_display', {'module': 'boxes'}),
@@ -3283,6 +3438,13 @@ TARGETS = {
         ('fun', '_get_line', 'grid_get_line', {'opaque': True}),
         ('fun', '_get_placement', 'grid_get_placement', {'opaque': True}),
         ('fun', '_get_span', 'grid_get_span', {}),
+        # _get_second_placement, the sparse case: the else branch of the final `if dense:` (option '<last-else>'), a
+        # function of the set of occupied tracks (here a list of its elements: only its truth value and its max are
+        # used) and of the second-axis placement properties.  `for end_track in count(track + 1)` (second_start a
+        # span) is outside the subset: option 'opaque'; the theorems are about second_start == 'auto'.
+        ('fun', '_get_second_placement', 'grid_second_sparse', {
+            'slice_from': ('<last-else>', 'if dense:'), 'opaque': True,
+            'params': ['occupied_tracks', 'second_start', 'second_end', 'second_tracks']}),
     ]),
     'GenFlexResolve': ('weasyprint/layout/flex.py', [
         # flex_layout, step 6 "resolve the flexible lengths" (css-flexbox 9.7, C12) for one line, as consecutive
@@ -3346,6 +3508,25 @@ TARGETS = {
         # of contain_/cover_constraint_image_sizing, percentage and Box.content_box_x/y are answered by the callees'
         # own regenerated bodies (GenReplaced, GenPercent, GenBoxes) in proofs/C13_gen_layout.v
         ('fun', 'replacedbox_layout', 'replacedbox_layout', {}),
+    ]),
+    'GenInlineReplaced': ('weasyprint/layout/replaced.py', [
+        # inline_replaced_box_layout (CSS 2.1 10.3.2: 'auto' margins of an inline replaced box are used as 0), whole
+        # body: the loop over the four sides is unrolled, getattr / setattr / f'margin_{side}' get constant names (see
+        # specialise()); its last statement inline_replaced_box_width_height(box, containing_block) sets box.width /
+        # box.height: an oracle statement (%call, box = f(box, containing_block))
+        ('fun', 'inline_replaced_box_layout', 'inline_replaced_box_layout', {
+            'consts': {}, 'callable': False,
+            'oracle_stmts': {'inline_replaced_box_width_height': (['box', 'containing_block'], ['box'])}}),
+        # inline_replaced_box_width_height, whole body: the five callees mutate the box: oracle statements
+        # (%call, box = f(box, ..)); f.without_min_max (the function under the handle_min_max_* decorator) and f (the
+        # decorated one) are different oracles
+        ('fun', 'inline_replaced_box_width_height', 'inline_replaced_box_width_height', {
+            'callable': False,
+            'oracle_stmts': {'replaced_box_width.without_min_max': (['box', 'containing_block'], ['box']),
+                             'replaced_box_height.without_min_max': (['box'], ['box']),
+                             'min_max_auto_replaced': (['box'], ['box']),
+                             'replaced_box_width': (['box', 'containing_block'], ['box']),
+                             'replaced_box_height': (['box'], ['box'])}}),
     ]),
     'GenMinMax': ('weasyprint/layout/min_max.py', [
         # the function that a call of a @handle_min_max_width / @handle_min_max_height function executes (option
@@ -3443,6 +3624,11 @@ TARGETS = {
         # form `x.a[-1] = e` of 'obj_methods'; Matrix(..) and @ are linked to gen/GenMatrix.v by the theorems
         ('fun', 'Stream.transform', 'stream_transform', {
             'obj_methods': STREAM_METHODS, 'call_as': 'Stream.transform'}),
+        # def set_color_special(self, name, stroke=False, *operands): the vararg is an ordinary last parameter whose
+        # value is the tuple of the extra arguments (option 'vararg_last'); super().set_color_special(name, stroke,
+        # *operands) is the oracle "super.set_color_special" receiving that tuple as its last argument
+        ('fun', 'Stream.set_color_special', 'stream_set_color_special', {
+            'obj_methods': STREAM_METHODS, 'vararg_last': True, 'call_as': 'Stream.set_color_special'}),
     ]),
 }
 
@@ -3543,6 +3729,9 @@ def generate(repo, out_dir, only=None):
                             raise Unsupported('%s is not a parameter of %s that is never rebound' % (x_, pyname))
                     if extra.get('inner'):
                         fn = decorator_inner(tree, fn, extra['inner'])
+                    VARARG_LAST[0] = None
+                    if extra.get('vararg_last'):
+                        fn = vararg_as_last(fn)
                     if extra.get('consts') is not None or extra.get('tests') or extra.get('free'):
                         fn = specialise(fn, tree, extra.get('consts') or {}, extra.get('tests'), extra.get('free'))
                     if extra.get('computer'):
@@ -3662,6 +3851,27 @@ def check_binding(tree, fn, callee):
     imported with `from ... import name`, and not rebound inside the calling function; methods (".name") are
     resolved by name only (recorded in the trusted base)"""
     if callee.startswith('.'):
+        return
+    if callee.endswith('.without_min_max') and callee in TARGET_ORACLE:
+        # the oracle statement f.without_min_max(..) (see oracle_stmt): f is not rebound in the calling function and
+        # is THE module-level function f, defined once, under exactly one decorator handle_min_max_width / _height
+        # imported from .min_max (which sets the attribute without_min_max of what it returns)
+        base = callee[:-len('.without_min_max')]
+        for n in ast.walk(fn):
+            if (isinstance(n, ast.Name) and not isinstance(n.ctx, ast.Load) and n.id == base) \
+                    or (isinstance(n, ast.arg) and n.arg == base):
+                raise Unsupported('%s is rebound inside %s' % (base, fn.name))
+        defs = [n for n in tree.body if isinstance(n, ast.FunctionDef) and n.name == base]
+        others = [n for n in tree.body if not isinstance(n, ast.FunctionDef) and any(
+            isinstance(x, ast.Name) and x.id == base and not isinstance(x.ctx, ast.Load) for x in ast.walk(n))]
+        if len(defs) != 1 or others or len(defs[0].decorator_list) != 1 \
+                or not isinstance(defs[0].decorator_list[0], ast.Name) \
+                or defs[0].decorator_list[0].id not in ('handle_min_max_width', 'handle_min_max_height'):
+            raise Unsupported('%s is not one module-level function under a handle_min_max_* decorator' % base)
+        deco = defs[0].decorator_list[0].id
+        if not any(isinstance(n, ast.ImportFrom) and n.module == 'min_max' and n.level == 1 and any(
+                a.name == deco and a.asname is None for a in n.names) for n in tree.body):
+            raise Unsupported('%s is not imported from .min_max' % deco)
         return
     for n in ast.walk(fn):
         if isinstance(n, ast.Name) and isinstance(n.ctx, ast.Store) and n.id == callee:
